@@ -548,3 +548,50 @@ Example my_var2_casings :
   map (fun c => apply_casing c (S "my_var2")) all_casings
   = map (fun s => Some (S s)) ["myVar2"; "MyVar2"; "my-var2"; "My-Var2"; "My_Var2"; "MY_VAR2"]%string.
 Proof. vm_compute. reflexivity. Qed.
+
+(* ---- v1 AUTO key case: possible_json_keys covers the documented spellings ----- *)
+Lemma remove_first_keeps x n l : In x l -> x <> n -> In x (remove_first n l).
+Proof.
+  induction l as [|y l IH]; cbn [In remove_first]; [tauto|].
+  intros [E|H] Hne.
+  - subst y. destruct (pstr_eqb n x) eqn:Q; [apply pstr_eqb_eq in Q; congruence | now left].
+  - destruct (pstr_eqb n y); [assumption | right; auto].
+Qed.
+
+Theorem auto_keys_cover w ws (c : casing) :
+  wf_word w -> Forall wf_word ws -> c <> Screaming ->
+  exists k ks, apply_casing c (snake_name w ws) = Some k /\
+               possible_json_keys (snake_name w ws) = Some ks /\
+               (k = snake_name w ws \/ In k ks).
+Proof.
+  intros Hw Hws Hc. set (n := snake_name w ws).
+  pose proof (to_camel_name w ws Hw Hws) as Ecamel. fold n in Ecamel.
+  pose proof (to_lisp_name w ws Hw Hws) as Elisp. fold n in Elisp.
+  pose proof (title_kebab w ws Hw Hws) as Etitle.
+  pose proof (upper_kebab_to_upper_snake w ws Hw Hws) as Eus.
+  set (k1 := wbody w ++ camel_tail ws) in *.
+  set (all := [k1; cap_first k1; kebab w ws; title (kebab w ws);
+               replace_char c_dash c_us (title (kebab w ws));
+               lower (replace_char c_dash c_us (title (kebab w ws)))]).
+  assert (Epjk : possible_json_keys n = Some (if mem_str n all then remove_first n all else all)).
+  { unfold possible_json_keys. rewrite Ecamel. unfold k1 at 1, wbody at 1. cbn [app].
+    rewrite Elisp. reflexivity. }
+  assert (Hin : forall k, In k all -> k = n \/ In k (if mem_str n all then remove_first n all else all)).
+  { intros k Hk. destruct (pstr_eqb k n) eqn:Q.
+    - left. now apply pstr_eqb_eq.
+    - right. destruct (mem_str n all); [|assumption]. apply remove_first_keeps; [assumption|].
+      intro E. subst k. now rewrite pstr_eqb_refl in Q. }
+  destruct c; try congruence; cbn [apply_casing]; fold n.
+  - exists k1, (if mem_str n all then remove_first n all else all).
+    repeat split; auto. apply Hin. cbn; auto.
+  - exists (cap_first k1), (if mem_str n all then remove_first n all else all).
+    repeat split; auto.
+    + unfold n. rewrite (to_pascal_name w ws Hw Hws). reflexivity.
+    + apply Hin. cbn; auto.
+  - exists (kebab w ws), (if mem_str n all then remove_first n all else all).
+    repeat split; auto; [now rewrite Elisp | apply Hin; cbn; auto].
+  - exists (title (kebab w ws)), (if mem_str n all then remove_first n all else all).
+    repeat split; auto; [now rewrite Elisp | apply Hin; cbn; auto].
+  - exists (replace_char c_dash c_us (title (kebab w ws))), (if mem_str n all then remove_first n all else all).
+    repeat split; auto; [now rewrite Elisp | apply Hin; cbn; auto 6].
+Qed.
